@@ -19,7 +19,7 @@ EXPLANATION = (
     "as a result; connection_lost maps EIO to EOF and other errors to error(); (D5) found()/error() resolve the future "
     "only if it is not done and then pause the transport; (D6) the awaited value is wait_for(<the protocol's future>, "
     "timeout) and TimeoutError pauses the transport and returns Expecter.timeout(); (D7) reuse: the stored pair is "
-    "unpacked in the order it was stored, a new expecter and a fresh future are installed and reading is resumed. NOT "
+    "unpacked in the order it was stored, a new expecter and a fresh future are installed and reading is resumed; (D9) every Expecter the entry points build, the one handed to expect_async included, gets this call's searchwindowsize. NOT "
     "decided: equality of results with the blocking path under all schedules.")
 TRUSTED = ["asyncio.Protocol callback contract, wait_for semantics", "sa/ engine"]
 ASSUMPTIONS = ["the pre-await twin module is dead code on this interpreter (version switch folded)"]
